@@ -5,7 +5,7 @@ LEVEL = 'proof'
 FUNCTIONS = [M + f for f in ('get_tag', 'get_prefix', 'match_tagname', 'match_tag', 'supports_namespaces', 'get_tag_ns', 'is_html_tag')] + \
             [N + f for f in ('is_xml_tree', 'get_tag_name', 'has_html_ns', 'is_iframe')] + ['soupsieve.util.lower', 'lemma.C05_html_only_list'] + HUB
 TRUSTED = [A_PY, A_BS4, A_SMT, 'util.lower proved over code points; its SMT-string view ascii_lower is the same function in the other string representation',
-           'attribute name/value folding (match_attribute_name, parse_attribute_selector) not yet under discharged contracts: bounded']
+           'value folding is decided when the pattern is compiled (parse_attribute_selector): bounded attribute-operator sweep; name folding (match_attribute_name, get_attribute_by_name) is proved']
 ASSUMPTIONS = TRUSTED
 EXPLANATION = ('Tag-name comparison is proved to fold ASCII case exactly when the document is not XML (get_tag, match_tagname); util.lower is proved to be '
                'ASCII A-Z -> a-z; HTML-only lists are proved (lemma + hub) never to hold in a document that is XML but not XHTML.')
@@ -23,3 +23,5 @@ def _bt_attr_ops(ctx):
 BOUNDED = BOUNDED + [_bt_attr_ops]
 
 FUNCTIONS = FUNCTIONS + [M + '__init__', N + 'assert_valid_input']
+
+FUNCTIONS = FUNCTIONS + [q for q in ATTRS if q not in FUNCTIONS]
